@@ -134,7 +134,7 @@ def exMCodec : CFields :=
                 (.struct (.cons 1 false false false .uint32 (.cons 2 false false false .bytes .nil)))) .nil)) .nil)))))
 theorem exM_codec : fieldsOf 1 exMFields = exMCodec := by
   have hm : (lookupProtobuf "").bind parseStructTag = none := modelTag_empty
-  simp [exMFields, exMInner, exInner, exMCodec, exInnerC, codecOf, fieldsOf, hm, fieldCodecOf, isStructBase, baseTy,
+  simp [exMFields, exMInner, exInner, exMCodec, exInnerC, codecOf, fieldsOf, hm, fieldCodecOf, isStructBase, embBase, baseTy,
     Codec.wire]
 theorem exM_len : (marshal (.struct exMFields) (.struct exMVals)).length < 2 ^ 64 := by
   rw [marshal_struct, exM_codec]; decide
